@@ -263,6 +263,10 @@ func c09GenSet(r *Rng, id int) c09Set {
 		s.Files["docs/page.vuego"] = "---\nlayout: shell\ntitle: Doc\n---\n<h1>{{ title }}</h1><p>{{ counter }}</p>"
 		s.Pages = append(s.Pages, "blog/post.vuego", "docs/page.vuego")
 	}
+	// a page that brings everything it reads in its own front-matter and assigns at its root scope: rendered with no
+	// data at all (nil, or an empty map), what it assigns must stay in that request
+	s.Files["selfpage.vuego"] = "---\nstep: 1\ntitle: Self\nuser:\n  name: fm-user\n---\n" +
+		`<h1>{{ title }}</h1><template :step="step + 1" :who="user.name"></template><p>Step {{ step }} {{ who }}</p><template :step="step + 1"></template><p>Step {{ step }}</p>`
 	s.Frags = []string{"comp/card.vuego", "comp/item.vuego"}
 	return s
 }
@@ -293,7 +297,9 @@ func c09GenCalls(r *Rng, s c09Set, n int, salt int) []c09Call {
 	var calls []c09Call
 	for i := 0; i < n; i++ {
 		idx := salt*1000 + i
-		switch r.Intn(8) {
+		switch r.Intn(9) {
+		case 8:
+			calls = append(calls, c09Call{Kind: Pick(r, []string{"Vue.Render.nil", "Vue.Render.empty", "Load.Render.nofill"}), File: "selfpage.vuego", Idx: idx})
 		case 0, 1:
 			calls = append(calls, c09Call{Kind: "Load.Fill.Render", File: Pick(r, s.Pages), Own: r.Intn(3) == 0, Idx: idx})
 		case 2:
@@ -418,6 +424,12 @@ func (e *c09Engine) do(c c09Call, shared map[string]any) (res c09Res) {
 		err = e.base.New().Fill(data).RenderFile(ctx, &buf, c.File)
 	case "Vue.Render":
 		err = e.vue.Render(&buf, c.File, data)
+	case "Vue.Render.nil":
+		err = e.vue.Render(&buf, c.File, nil)
+	case "Vue.Render.empty":
+		err = e.vue.Render(&buf, c.File, map[string]any{})
+	case "Load.Render.nofill":
+		err = e.base.Load(c.File).Render(ctx, &buf)
 	case "Vue.RenderFragment":
 		err = e.vue.RenderFragment(&buf, c.File, data)
 	case "New.Fill.RenderString":
